@@ -58,6 +58,11 @@ func init() {
 		// the documented way to simulate an upload at another time; it must not change who may start a sidecar
 		c.UploadStartTime = time.Now().AddDate(0, 0, cfg.StartDays)
 	}
+	if os.Getenv("VERIF_C16_ENTRY") == "maybechild" {
+		// a program like the go command, which cannot call Start first thing: it calls MaybeChild at the top of
+		// main (the telemetry child does its work there and exits) and Start later
+		MaybeChild(c)
+	}
 	Start(c)
 	// Record which processes this one has spawned (harness-level observation through /proc,
 	// independent of when the child gets to write its own log line).
@@ -96,6 +101,7 @@ type c16Row struct {
 	Start  int    // Config.UploadStartTime in days from now (0: not set)
 	Debug  int    // 0: no debug directory; 1: an empty one (the user asked for logs); 2: one that has a sidecar.log already
 	Zone   int    // 0: the environment's zone; 1: a zone whose clocks went forward an hour 12 hours ago; 2: back an hour 12 hours ago
+	Entry  int    // 0: the program calls Start first thing; 1: it calls MaybeChild first and Start afterwards
 }
 
 // c16ModeTexts: spellings of a mode file that all read as the same mode (the mode is the first word;
@@ -121,7 +127,7 @@ func (r c16Row) modeText() string {
 }
 
 func (r c16Row) String() string {
-	return fmt.Sprintf("marker=%s crash=%v upload=%v mode=%s(%q) token=%s dir=%s uploadStart=%+dd debugDir=%d zone=%d", r.Marker, r.Crash, r.Upload, r.Mode, r.modeText(), r.Token, r.Dir, r.Start, r.Debug, r.Zone)
+	return fmt.Sprintf("marker=%s crash=%v upload=%v mode=%s(%q) token=%s dir=%s uploadStart=%+dd debugDir=%d zone=%d entry=%d", r.Marker, r.Crash, r.Upload, r.Mode, r.modeText(), r.Token, r.Dir, r.Start, r.Debug, r.Zone, r.Entry)
 }
 
 // c16Model: how many children the row must launch, and with which upload flag.
@@ -261,6 +267,9 @@ func c16RunRow(t c16Fataler, base, exe string, r c16Row) {
 	case "other":
 		env = append(env, telemetryChildVar+"=3")
 	}
+	if r.Entry == 1 {
+		env = append(env, "VERIF_C16_ENTRY=maybechild")
+	}
 	if r.Zone != 0 {
 		// the process's local zone had a clock change twelve hours ago: a calendar day back from now is 23 (or 25)
 		// hours long there; the token's 24 hours are elapsed time
@@ -336,6 +345,9 @@ func c16RunRow(t c16Fataler, base, exe string, r c16Row) {
 			if p.marker == "" {
 				t.Fatalf("row {%s}: the go command run by the sidecar (pid %d) started without the telemetry-child marker: as an instrumented program it launches a sidecar of its own (log %+v)", r, p.pid, procs)
 			}
+			if p.marker == "1" {
+				t.Fatalf("row {%s}: the go command run by the sidecar (pid %d) started with the marker of the telemetry child itself (1): as an instrumented program it takes itself for a sidecar instead of a descendant that does nothing (log %+v)", r, p.pid, procs)
+			}
 			vstatsLabelGo()
 			continue
 		}
@@ -397,12 +409,12 @@ func c16AllRows() []c16Row {
 									continue // the start time only matters to upload-enabled starts
 								}
 								// (the debug directory is not a dimension of the table: its three states are dealt out in turn)
-								rows = append(rows, c16Row{m, crash, up, mode, tok, "ok", v, st, len(rows) % 3, len(rows) / 3 % 3})
+								rows = append(rows, c16Row{m, crash, up, mode, tok, "ok", v, st, len(rows) % 3, len(rows) / 3 % 3, len(rows) / 9 % 2})
 							}
 						}
 					}
 				}
-				rows = append(rows, c16Row{m, crash, up, "missing", "absent", "uncreatable", 0, 0, 0, 0})
+				rows = append(rows, c16Row{m, crash, up, "missing", "absent", "uncreatable", 0, 0, 0, 0, 0})
 			}
 		}
 	}
@@ -445,6 +457,7 @@ func TestVerifC16Rows(t *testing.T) {
 		if r.Dir == "ok" {
 			r.Debug = rapid.IntRange(0, 2).Draw(t, "debugDir")
 			r.Zone = rapid.SampledFrom([]int{0, 0, 1, 1, 2}).Draw(t, "zone")
+			r.Entry = rapid.IntRange(0, 1).Draw(t, "entry")
 		}
 		c16RunRow(t, base, exe, r)
 		launch, _ := c16Model(r)
